@@ -255,11 +255,55 @@ theorem acyclic_accepted (adj : Name → List Name) (verts : List Name) :
     (checkCycle verts adj = true → ∃ x n, Reaches adj n x x) :=
   ⟨fun rk hrk => checkCycle_accepts_ranked adj verts rk hrk, checkCycle_sound adj verts⟩
 
-/-- **project unmodified (partial)**: the caller's project is left as it was, whatever the outcome, unless some service
-depends on itself and optionally on a service that is not enabled.  (Without the hypothesis: `Neg/C13.lean`.) -/
-theorem project_unmodified (p : Proj) (hq : ∀ s ∈ p.services, ¬ Quirk (p.services.map (·.name)) s) :
-    (run p).changed = [] :=
-  project_unmodified_partial p hq
+/-- **project unmodified** (full strength since `fix:` 3143716; the hypothesis "no service depends on itself and
+optionally on a service that is not enabled" is gone): the caller's project is left as it was, whatever the outcome.
+Pre-fix witnesses: `Neg/C13.lean` (`runOld`). -/
+theorem project_unmodified (p : Proj) : (run p).changed = [] :=
+  project_unmodified_full p
+
+/-- **a self dependency is refused in every iteration order** (was order dependent next to an optional missing
+dependency): if service `s` lists itself, the outcome is not "ok" -/
+theorem self_dependency_refused (s : Svc) (dis : List Name) (hself : ∃ d ∈ s.deps, d.name = s.name) :
+    (run ⟨[s], dis⟩).cls ≠ "ok" := by
+  obtain ⟨d, hd, hn⟩ := hself
+  simp only [run, List.map_cons, List.map_nil, build]
+  have key : ∀ (l : List Dep) (es : List Name), (d ∈ l ∨ s.name ∈ es) →
+      (scanDeps [s.name] dis l es).1 ≠ none ∨ s.name ∈ (scanDeps [s.name] dis l es).2 := by
+    intro l
+    induction l with
+    | nil => intro es h; rcases h with h | h; cases h; exact .inr h
+    | cons x r ih =>
+      intro es h
+      simp only [scanDeps]
+      split
+      · apply ih
+        rcases h with h | h
+        · rcases List.mem_cons.mp h with rfl | h'
+          · right; rw [hn]; simp
+          · exact .inl h'
+        · right; simp [h]
+      · rename_i hx
+        split
+        · left; simp
+        · apply ih
+          rcases h with h | h
+          · rcases List.mem_cons.mp h with rfl | h'
+            · rw [hn] at hx; simp at hx
+            · exact .inl h'
+          · exact .inr h
+  rcases hs : scanDeps [s.name] dis s.deps [] with ⟨e, es⟩
+  have := key s.deps [] (.inl hd)
+  rw [hs] at this
+  cases e with
+  | some e => cases e <;> simp
+  | none =>
+    simp only [ne_eq, not_true_eq_false, false_or] at this
+    simp only [build, List.nil_append]
+    have hc : checkCycle [s.name] (adjOf [(s.name, es)]) = true := by
+      simp only [checkCycle, List.any_cons, List.any_nil, Bool.or_false, List.length_cons, List.length_nil]
+      simp only [searchCycle, adjOf, List.find?, beq_self_eq_true, List.any_eq_true]
+      exact ⟨s.name, this, by simp⟩
+    simp [hc]
 
 /-- non-vacuity: a chain 2 → 1 → 0 with an optional dependency on a missing service satisfies the hypothesis, is
 accepted and unmodified; closing the chain into a cycle is refused -/
